@@ -1,7 +1,7 @@
 """Extractor for the position-conversion unit (Verus, C15): convert::from_pos and convert::from_range, verbatim, with
 
-  R17  `ensure!(COND, "message", args..);` -> `if !(COND) { return Err(verif_error()); }`
-       (what anyhow's macro expands to, minus the construction of the message, which no contract mentions)
+  R17  `ensure!(COND, "message", args..);` -> `if !(COND) { return Err(verif_error()); }`, `bail!(..)` -> `return Err(verif_error())`
+       (what anyhow's macros expand to, minus the construction of the message, which no contract mentions)
 
 `LineMap`, `Vfs`, `Arc`, `TextSize/TextRange`, `lsp_types::{Position, Range}`, `anyhow::Result` are stand-ins with
 assumed contracts (contracts/conv_prelude.rs)."""
@@ -45,6 +45,24 @@ def rewrite_ensure(body):
         n += 1
 
 
+def rewrite_bail(body):
+    """R17b: `bail!("message", args..)` / `anyhow::bail!(..)` as a statement or block tail -> `return Err(verif_error())`"""
+    n = 0
+    while True:
+        mask = code_mask(body)
+        mm = None
+        for cand in re.finditer(r'\b(?:anyhow::)?bail!\s*\(', body):
+            if mask[cand.start()]:
+                mm = cand
+                break
+        if not mm:
+            return body, n
+        po = mm.end() - 1
+        pc = match_brace(body, mask, po, '(', ')')
+        body = body[:mm.start()] + 'return Err(verif_error())' + body[pc + 1:]
+        n += 1
+
+
 def extract(repo):
     conv = Source(os.path.join(repo, 'crates/glas/src/convert.rs'))
     items, notes = [], []
@@ -54,7 +72,8 @@ def extract(repo):
             if nm == name:
                 h, b = split_fn(conv, fs, fo, fc)
                 b, n = rewrite_ensure(b)
-                notes.append('%s: R17 ensure! statements rewritten: %d' % (name, n))
+                b, n2 = rewrite_bail(b)
+                notes.append('%s: R17 ensure! statements rewritten: %d, bail! rewritten: %d' % (name, n, n2))
                 if re.search(r'\b(bail|anyhow|format|ensure)!\s*\(', ''.join(c if m else ' ' for c, m in zip(b, code_mask(b)))):
                     raise AnchorLost('%s uses an error macro other than a statement-level ensure!' % name)
                 items.append(Item('fn', name, None, 'crates/glas/src/convert.rs', conv.line_of(fs), header=strip_lead(h), body=b))
